@@ -155,7 +155,7 @@ def doc_entries(doc, reg):
     return out
 
 
-def gen_reg_module(reg, mix, entries, doc, waived=(), waived_keys=()):
+def gen_reg_module(reg, mix, entries, doc, waived=(), waived_keys=(), extra=None):
     L = ['---------------------------- MODULE FactoryReg ----------------------------',
          '\\* GENERATED by harness/fx_factory.py from the live taurex ClassFactory (inspect.signature) and',
          '\\* harness/data/documented_keywords.json (extracted from doc/source/user/taurex/*.rst).  Do not edit.',
@@ -196,6 +196,10 @@ def gen_reg_module(reg, mix, entries, doc, waived=(), waived_keys=()):
     L.append('MixinOf == ' + (' @@ '.join(mixof) if mixof else '<<>>'))
     L.append('Waived == ' + tla_set(tla_str(w) for w in sorted(waived)))
     L.append('WaivedKeys == ' + tla_set(tla_str(w) for w in sorted(waived_keys)))
+    if extra is None:       # constants of FactoryMix (composite selectors with several mixins)
+        from . import fx_mixins
+        extra = fx_mixins.gen_mix_constants(mix, fx_mixins.choose_bases(reg, entries))
+    L += list(extra)
     L.append('=============================================================================')
     return '\n'.join(L) + '\n'
 
